@@ -523,6 +523,51 @@ func c02Typed(r *core.Run) {
 	}
 	r.Coverage["typed_value_round_trips"] = len(jobs)
 
+	// tables longer than the blocks the loaders collect records in (300) and than the worker ranges: every record
+	// comes back, in order, in every format
+	for _, n := range []int{299, 300, 301, 450, 1000} {
+		for _, f := range formats {
+			dir := r.Dir(fmt.Sprintf("big%d%s", n, f.ext))
+			var b strings.Builder
+			b.WriteString("c1,c2\n")
+			for i := 1; i <= n; i++ {
+				fmt.Fprintf(&b, "%d,v%d\n", i, (i*7)%1000)
+			}
+			writeFile(filepath.Join(dir, "src.csv"), b.String())
+			file := "o." + f.ext
+			w := sut.RunBin(sut.BinOpts{Csvq: r.Csvq, Dir: dir, Args: []string{"--format", f.name, "--out", file, "--quiet", "SELECT c1, c2 FROM src"}, Timeout: 60 * time.Second})
+			from := "`" + file + "`"
+			if f.name == "FIXED" {
+				from = "FIXED('SPACES', `" + file + "`)"
+			}
+			rd := sut.RunBin(sut.BinOpts{Csvq: r.Csvq, Dir: dir, Args: []string{"--format", "CSV", "--quiet", "SELECT c1, c2 FROM " + from}, Timeout: 60 * time.Second})
+			// and through a commit: one cell of the written file is updated, everything else stays
+			up := sut.RunBin(sut.BinOpts{Csvq: r.Csvq, Dir: dir, Args: []string{"--quiet", "UPDATE " + from + " SET c2 = 'vX' WHERE c1 = 2"}, Timeout: 60 * time.Second})
+			rd2 := sut.RunBin(sut.BinOpts{Csvq: r.Csvq, Dir: dir, Args: []string{"--format", "CSV", "--quiet", "SELECT c1, c2 FROM " + from}, Timeout: 60 * time.Second})
+			_ = os.RemoveAll(dir)
+			want := b.String()
+			want2 := strings.Replace(want, "\n2,v14\n", "\n2,vX\n", 1)
+			sig, what := "", ""
+			switch {
+			case w.Exit != 0 || rd.Exit != 0 || up.Exit != 0 || rd2.Exit != 0:
+				sig, what = "big:"+f.name+":error", fmt.Sprintf("%d records as %s: write exit %d, read exit %d, update exit %d: %s%s%s", n, f.name, w.Exit, rd.Exit, up.Exit, firstLine(w.Stderr), firstLine(rd.Stderr), firstLine(up.Stderr))
+			case rd.Stdout != want:
+				sig, what = "big:"+f.name+":records-differ", fmt.Sprintf("a table of %d records written as %s does not read back as itself (first difference at byte %d)", n, f.name, firstDiff(rd.Stdout, want))
+			case rd2.Stdout != want2:
+				sig, what = "big:"+f.name+":records-differ-after-update", fmt.Sprintf("a %s file of %d records after UPDATE of one cell: other records changed (first difference at byte %d)", f.name, n, firstDiff(rd2.Stdout, want2))
+			}
+			cnt0 := r.Coverage["big_table_round_trips"]
+			if cnt0 == nil {
+				cnt0 = 0
+			}
+			r.Coverage["big_table_round_trips"] = cnt0.(int) + 1
+			if sig != "" && !reported[sig] {
+				reported[sig] = true
+				r.Violation(sig, what, map[string]interface{}{"records": n, "format": f.name})
+			}
+		}
+	}
+
 	// column names are cells of the header record: a name the format can spell reads back as the same name
 	names := []string{"a b", "a,b", "a\"b", " a", "a ", "1", "\u00e9", "a\tb", "select", "a.b", "x:y", "a`b", "-", "a\\b"}
 	hreported := map[string]bool{}
@@ -558,4 +603,17 @@ func c02Typed(r *core.Run) {
 		}
 	}
 	r.Coverage["header_name_round_trips"] = cnt
+}
+
+
+func firstDiff(a, b string) int {
+	for i := 0; i < len(a) && i < len(b); i++ {
+		if a[i] != b[i] {
+			return i
+		}
+	}
+	if len(a) < len(b) {
+		return len(a)
+	}
+	return len(b)
 }
